@@ -8,18 +8,27 @@
    All theorems hold for ALL sizes / scales / strides / crop sizes / positions
    (no bound); the refutations are closed witnesses checked by vm_compute.
 
-   Findings (faithful model, full statement false):
+   Findings (faithful model, full statement false).  KNOWN on the current tree of /repo:
      F11  cumulative resize factor >= 3            -> c04_registration_lt_one_refuted,
                                                       c04_two_x2_steps_refuted
-     F11b rounded output size + far-edge keypoint  -> c04_floor_far_edge_refuted,
+     F11b rounded output size + keypoint in the band (sizes and position only, see Geometry.band)
+                                                   -> c04_floor_far_edge_refuted,
                                                       c04_round_far_edge_refuted
-     F04k kornia RandomAffine(align_corners=False) on elongated images
+     F11c (round 4) pipeline offset < 1 px multiplied by the linear part of the sampled
+          augmentation matrix                      -> c04_full_aug_refuted
+   FIXED in /repo (historic; the theorems about `warp_content false` / `warp_mech false` describe the
+   pinned tree before the fixes and kornia's default, which the harness still measures directly):
+     F04k apply_geometric_augmentation, RandomAffine(align_corners=False)   fixed by 6a3da1d
+     F04p KorniaAugmenter, the same                                          fixed by c812d23
                                                    -> c04_aug_nonsquare_refuted
-   Strongest true statements: c04_registration_partial_full / _centered (hypotheses =
-   complements of the selectors), c04_aug_square_registered, c04_aug_fixed_registered. *)
+   Strongest true statements: c04_registration_partial_full / _centered (no augmentation) and
+   c04_registration_partial_full_aug / _centered_aug (with geometric augmentation, error measured
+   against the ORIGINAL labels); their hypotheses are the complements of the selectors, which are
+   stated in sizes / positions / matrix entries and proved to be exactly the failure sets
+   (c04_selector_F11b_exact_*, c04_selector_F11c_exact_full).  Current tree: c04_warp_mech_aligned. *)
 From Coq Require Import List ZArith QArith Qround Qabs Bool.
 Import ListNotations.
-From SV Require Import C04.Geometry C04.Lemmas C04.Lemmas2.
+From SV Require Import C04.Geometry C04.Lemmas C04.Lemmas2 C04.Lemmas3.
 Open Scope Q_scope.
 
 (* --- predicates defined in Lemmas.v, restated ---------------------------- *)
@@ -75,6 +84,7 @@ Theorem c04_resizer_floor_size : forall n s, ~ s == 1 ->
 Proof. exact resizer_size_floor. Qed.
 Print Assumptions c04_resizer_floor_size.
 
+(* [_def] *)
 Theorem c04_resizer_scale_one_identity : forall n s, s == 1 -> resizer_size n s = n.
 Proof. exact resizer_size_one. Qed.
 Print Assumptions c04_resizer_scale_one_identity.
@@ -87,7 +97,8 @@ Theorem c04_stride_pad_least_multiple : forall n s, (0 < s)%Z ->
 Proof. exact stride_pad_spec. Qed.
 Print Assumptions c04_stride_pad_least_multiple.
 
-(* crops: exactly the requested size; the over-crop is floor (crop * sqrt 2) >= crop *)
+(* crops: exactly the requested size [_def: osize of the model step]; the over-crop is
+   floor (crop * sqrt 2) >= crop *)
 Theorem c04_crop_exact_size : forall c n_in n, osize (crop_axis c n_in n) = n.
 Proof. exact crop_size. Qed.
 Print Assumptions c04_crop_exact_size.
@@ -116,7 +127,9 @@ Proof. exact pipe_centered_size. Qed.
 Print Assumptions c04_pipe_centered_size.
 
 (* ======================================================================== *)
-(* (b) padding only at the bottom / right: content and keypoints stay where they are *)
+(* (b) padding only at the bottom / right: content and keypoints stay where they are.
+   [_def: restates the model of the step (identity maps); the substantive statement for the whole
+   chain is c04_pipe_full_padding_bottom_right below, the code is tied by the oracle `valid_rect`] *)
 Theorem c04_pad_bottom_right_only : forall n s x,
   ap (cmap (pad_axis n s)) x == x /\ ap (kmap (pad_axis n s)) x == x.
 Proof. exact pad_identity. Qed.
@@ -138,6 +151,7 @@ Theorem c04_resize_axis_is_resample : forall n s, ~ s == 1 ->
 Proof. exact resize_axis_unfold. Qed.
 Print Assumptions c04_resize_axis_is_resample.
 
+(* [_def] *)
 Theorem c04_pad_registered : forall n s x, err (pad_axis n s) x == 0.
 Proof. exact err_pad. Qed.
 Print Assumptions c04_pad_registered.
@@ -246,13 +260,64 @@ Theorem c04_recrop_adds_no_error : forall pre c0 crop st x, (1 < crop)%Z ->
 Proof. exact err_recrop. Qed.
 Print Assumptions c04_recrop_adds_no_error.
 
-(* THE REGISTRATION STATEMENT, partial: for the pipelines of the four datasets (BottomUp /
-   SingleInstance / Centroid = pipe_full, CenteredInstance = pipe_centered) the error is
-   under one output pixel on both axes for every input outside the selectors of the known
-   findings F11 (cumulative factor >= 3) and F11b (a rounded size and the model error
-   reaching 1 px; by the theorems above only in the far-edge band, never for exact sizes,
-   never for a lone resizer step with 1 <= scale < 3, never for a lone size-matcher step
-   with eff < 2). *)
+(* CLOSED FORM of the error of the dataset pipelines (round 4): for every position,
+     err = d * t + (k - 1)/2,   d = size defect of the axis (pdx / pdy: actual minus nominal side of
+   the resized content, from the four sizes), t = (x + 1/2)/n the relative position, k = eff * scale.
+   Cropping, re-cropping and padding do not change it. *)
+Theorem c04_pipe_full_error_formula : forall H W mh mw s st p,
+  (0 < H)%Z -> (0 < W)%Z -> (0 < dflt H mh)%Z -> (0 < dflt W mw)%Z ->
+  pipe_full H W mh mw s st = Some p ->
+  (forall x, err (px p) x == perr (pdx p) (pfactor p) (pnx p) x) /\
+  (forall y, err (py p) y == perr (pdy p) (pfactor p) (pny p) y).
+Proof. exact pipe_full_err_formula. Qed.
+Print Assumptions c04_pipe_full_error_formula.
+
+Theorem c04_pipe_centered_error_formula : forall H W mh mw s st ch cw cx cy p,
+  (0 < H)%Z -> (0 < W)%Z -> (0 < dflt H mh)%Z -> (0 < dflt W mw)%Z -> (1 < ch)%Z -> (1 < cw)%Z ->
+  pipe_centered H W mh mw s st ch cw cx cy = Some p ->
+  (forall x, err (px p) x == perr (pdx p) (pfactor p) (pnx p) x) /\
+  (forall y, err (py p) y == perr (pdy p) (pfactor p) (pny p) y).
+Proof. exact pipe_centered_err_formula. Qed.
+Print Assumptions c04_pipe_centered_error_formula.
+
+(* what the record fields are: the inputs' sides, and the defect computed from the sizes only *)
+Theorem c04_pipe_defect_bound : forall H W mh mw s p,
+  (0 < H)%Z -> (0 < W)%Z -> (0 < dflt H mh)%Z -> (0 < dflt W mw)%Z -> 0 < s ->
+  pipe_pre H W mh mw s = Some p ->
+  (- (s / 2 + (3 # 2)) < pdx p /\ pdx p <= s / 2) /\ (- (s / 2 + (3 # 2)) < pdy p /\ pdy p <= s / 2).
+Proof. exact pipe_pre_defect_bound. Qed.
+Print Assumptions c04_pipe_defect_bound.
+
+Theorem c04_pipe_exact_no_defect : forall H W mh mw s p,
+  (0 < H)%Z -> (0 < W)%Z -> (0 < dflt H mh)%Z -> (0 < dflt W mw)%Z ->
+  pipe_pre H W mh mw s = Some p -> pexact p = true -> pdx p == 0 /\ pdy p == 0.
+Proof. exact pipe_pre_exact_defect. Qed.
+Print Assumptions c04_pipe_exact_no_defect.
+
+(* the band of selector_F11b, [_def] of its meaning: where the closed form reaches one pixel *)
+Theorem c04_band_def : forall d k t, band d k t = true <-> 1 <= Qabs (d * t + (k - 1) / 2).
+Proof. exact band_iff. Qed.
+Print Assumptions c04_band_def.
+
+(* shape of the band (0 < k < 3): never at the near edge t = 0; an interval that, once entered,
+   extends to the far edge; empty unless the defect is at least min (3-k, 1+k)/2 px.  It is NOT
+   always thin: ex_c04_band_wide (factor 57/20: the band starts at t = 1/8) *)
+Theorem c04_band_far_edge_interval : forall d k, 0 < k -> k < 3 ->
+  band d k 0 = false /\
+  (forall t t', 0 <= t -> t <= t' -> band d k t = true -> band d k t' = true) /\
+  (forall t, 0 <= t -> t <= 1 -> band d k t = true ->
+     (3 - k) * (1 # 2) <= d \/ d <= - ((1 + k) * (1 # 2))).
+Proof. exact band_shape. Qed.
+Print Assumptions c04_band_far_edge_interval.
+
+(* THE REGISTRATION STATEMENT without augmentation, partial: for the pipelines of the four datasets
+   with apply_aug = False (BottomUp / SingleInstance / Centroid = pipe_full, CenteredInstance =
+   pipe_centered) the error is under one output pixel on both axes for every input outside the
+   selectors of the known findings F11 (cumulative factor >= 3) and F11b (a rounded size and the
+   keypoint in the band d * t >= (3-k)/2 or d * t <= -(1+k)/2 on one axis).  The selectors mention
+   only sizes, factor and position; the proof goes through the closed form above.  What is missing
+   for the full statement is exactly F11 and F11b (c04_selector_F11b_exact_*: the band is the
+   failure set, it cannot be narrowed).  With augmentation: c04_registration_partial_*_aug. *)
 Theorem c04_registration_partial_full : forall H W mh mw s st p x y,
   (0 < H)%Z -> (0 < W)%Z -> (0 < dflt H mh)%Z -> (0 < dflt W mw)%Z -> 0 < s ->
   pipe_full H W mh mw s st = Some p ->
@@ -269,6 +334,43 @@ Theorem c04_registration_partial_centered : forall H W mh mw s st ch cw cx cy p 
   Qabs (err (px p) x) < 1 /\ Qabs (err (py p) y) < 1.
 Proof. exact pipe_centered_partial. Qed.
 Print Assumptions c04_registration_partial_centered.
+
+(* exactness of the selector: on the real pipelines it is true EXACTLY where a size was rounded, the
+   factor is below 3 and the modelled error reaches one pixel on some axis *)
+Theorem c04_selector_F11b_exact_full : forall H W mh mw s st p x y,
+  (0 < H)%Z -> (0 < W)%Z -> (0 < dflt H mh)%Z -> (0 < dflt W mw)%Z ->
+  pipe_full H W mh mw s st = Some p ->
+  (selector_F11b p x y = true <->
+   pexact p = false /\ pfactor p < 3 /\ (1 <= Qabs (err (px p) x) \/ 1 <= Qabs (err (py p) y))).
+Proof. exact selector_F11b_exact_full. Qed.
+Print Assumptions c04_selector_F11b_exact_full.
+
+Theorem c04_selector_F11b_exact_centered : forall H W mh mw s st ch cw cx cy p x y,
+  (0 < H)%Z -> (0 < W)%Z -> (0 < dflt H mh)%Z -> (0 < dflt W mw)%Z -> (1 < ch)%Z -> (1 < cw)%Z ->
+  pipe_centered H W mh mw s st ch cw cx cy = Some p ->
+  (selector_F11b p x y = true <->
+   pexact p = false /\ pfactor p < 3 /\ (1 <= Qabs (err (px p) x) \/ 1 <= Qabs (err (py p) y))).
+Proof. exact selector_F11b_exact_centered. Qed.
+Print Assumptions c04_selector_F11b_exact_centered.
+
+(* non-vacuity of the partial statements, one example per branch: exact sizes (informative through
+   c04_pipe_full_exact_error), rounded sizes outside / inside the band, a wide band *)
+Example ex_c04_partial_exact_branch :
+  exists p, pipe_full 40 40 None None (5 # 2) 1 = Some p /\ pexact p = true /\
+    selector_F11 p = false /\ selector_F11b p 10 10 = false /\ err (px p) 10 == 3 # 4.
+Proof. exact ex_partial_exact_branch_w. Qed.
+
+Example ex_c04_partial_rounded_branch :
+  exists p, pipe_full 50 17 (Some 140%Z) (Some 60%Z) 1 1 = Some p /\ pexact p = false /\
+    selector_F11 p = false /\ selector_F11b p 3 25 = false /\ selector_F11b p 16 25 = true /\
+    pdx p == 2 # 5 /\ pfactor p == 14 # 5.
+Proof. exact ex_partial_rounded_branch_w. Qed.
+
+Example ex_c04_band_wide :
+  exists p, pipe_full 100 84 (Some 190%Z) (Some 168%Z) (3 # 2) 1 = Some p /\
+    selector_F11 p = false /\ selector_F11b p 9 0 = false /\ selector_F11b p 10 0 = true /\
+    err (px p) 10 == 1 /\ relpos (pnx p) 10 == 1 # 8.
+Proof. exact ex_band_wide_w. Qed.
 
 Example ex_c04_partial_nonvacuous :
   exists p, pipe_centered 120 160 (Some 128%Z) (Some 192%Z) (1 # 2) 16 32 32 80 60 = Some p /\
@@ -335,16 +437,19 @@ Theorem c04_intensity_never_moves_keypoints : forall (f : list kp -> list kp),
 Proof. exact intensity_never_moves. Qed.
 Print Assumptions c04_intensity_never_moves_keypoints.
 
+(* [_def] *)
 Theorem c04_missing_stays_missing : forall sx sy m,
   step_kp sx sy None = None /\ apply_mat m None = None.
 Proof. intros. split. apply step_kp_none. apply apply_mat_none. Qed.
 Print Assumptions c04_missing_stays_missing.
 
-(* kornia's RandomAffine as the code calls it (align_corners=False, fixed_F04k = false):
-   on SQUARE images content and keypoints differ by (displacement of the image centre)/(n-1)
-   everywhere — zero for rotation / scaling about the centre, under one pixel whenever the
-   centre moves by less than n-1 px; with the proposed fix (align_corners=True) the two
-   coincide for every image *)
+(* HISTORIC (pinned tree before fix 6a3da1d / c812d23; no code of the current tree takes this path):
+   kornia's RandomAffine with its DEFAULT align_corners=False (`warp_content false` = D m D^-1,
+   = `warp_mech false` by c04_warp_mech_default).  On SQUARE images content and keypoints differ by
+   (displacement of the image centre)/(n-1) everywhere — zero for rotation / scaling about the
+   centre, under one pixel whenever the centre moves by less than n-1 px.  Kept: they document F04k /
+   F04p and let the check report a regression; the harness measures RandomAffine(align_corners=False)
+   directly against `CAugContent false` on every run. *)
 Theorem c04_aug_square_error : forall n m x y, (1 < n)%Z ->
   let c := (zq n - 1) / 2 in
   fst (aug_err false n n m x y) == (fst (mat_xy m c c) - c) / (zq n - 1) /\
@@ -359,12 +464,43 @@ Theorem c04_aug_square_registered : forall n m x y, (1 < n)%Z ->
 Proof. exact aug_square_lt_one. Qed.
 Print Assumptions c04_aug_square_registered.
 
-Theorem c04_aug_fixed_registered : forall H W m x y,
+(* [_def] `warp_content true` is m by definition; the statement about what the CURRENT code runs is
+   c04_warp_mech_aligned below *)
+Theorem c04_aug_fixed_registered_def : forall H W m x y,
   fst (aug_err true H W m x y) == 0 /\ snd (aug_err true H W m x y) == 0.
 Proof. exact aug_fixed_registered. Qed.
-Print Assumptions c04_aug_fixed_registered.
+Print Assumptions c04_aug_fixed_registered_def.
 
-(* F04k: 17 x 200 image, similarity (scale ~1.49, rotation ~11.6 deg) about the image centre:
+(* CURRENT tree (align_corners=True in apply_geometric_augmentation and KorniaAugmenter): kornia's
+   warp_affine normalises the pixel matrix with the (n-1) convention and samples the grid with the
+   same convention, `warp_mech true H W m` = N^-1 (N m N^-1) N — the term `run (CAugContent true ..)`
+   evaluates and the harness compares with the measured content.  For every image with both sides
+   > 1 px and every matrix the content moves exactly by the keypoint matrix: geometric augmentation
+   applies the same transform to image and keypoints.  (A 1-px side is excluded: witness.) *)
+Theorem c04_warp_mech_aligned : forall H W m x y, (1 < H)%Z -> (1 < W)%Z ->
+  fst (mat_xy (warp_mech true H W m) x y) == fst (mat_xy m x y) /\
+  snd (mat_xy (warp_mech true H W m) x y) == snd (mat_xy m x y).
+Proof. exact warp_mech_aligned. Qed.
+Print Assumptions c04_warp_mech_aligned.
+
+Theorem c04_aug_aligned_registered : forall H W m x y, (1 < H)%Z -> (1 < W)%Z ->
+  fst (aug_err_mech true H W m x y) == 0 /\ snd (aug_err_mech true H W m x y) == 0.
+Proof. exact aug_err_mech_aligned. Qed.
+Print Assumptions c04_aug_aligned_registered.
+
+Theorem c04_warp_mech_one_px_excluded :
+  ~ fst (mat_xy (warp_mech true 5 1 ((1, 0, 1), (0, 1, 0))) 0 2) == fst (mat_xy ((1, 0, 1), (0, 1, 0)) 0 2).
+Proof. exact warp_mech_one_px_w. Qed.
+Print Assumptions c04_warp_mech_one_px_excluded.
+
+(* kornia's default (align_corners=False): the same mechanism gives D m D^-1, the historic map *)
+Theorem c04_warp_mech_default : forall H W m x y, (1 < H)%Z -> (1 < W)%Z ->
+  fst (mat_xy (warp_mech false H W m) x y) == fst (mat_xy (warp_content false H W m) x y) /\
+  snd (mat_xy (warp_mech false H W m) x y) == snd (mat_xy (warp_content false H W m) x y).
+Proof. exact warp_mech_default. Qed.
+Print Assumptions c04_warp_mech_default.
+
+(* HISTORIC F04k / F04p (fixed by 6a3da1d / c812d23), kornia's default: 17 x 200 image, similarity (scale ~1.49, rotation ~11.6 deg) about the image centre:
    the keypoint (160, 0) and its image content both stay inside the 200 x 17 output and are
    more than 1 px apart *)
 Theorem c04_aug_nonsquare_refuted :
@@ -483,6 +619,7 @@ Theorem c04_sizematcher_datapipe : forall mh mw H0 W0 t l e,
 Proof. exact smdp_run_spec. Qed.
 Print Assumptions c04_sizematcher_datapipe.
 
+(* [_def: identity maps of the model step] *)
 Theorem c04_sizematcher_datapipe_registered : forall n out x,
   err (smdp_axis n out) x == 0 /\ content_lo (smdp_axis n out) == - (1 # 2) /\
   content_hi (smdp_axis n out) == zq n - (1 # 2).
@@ -570,10 +707,106 @@ Example ex_c04_crop_contains :
   find_instance_crop_size [[Some (10, 20); None; Some (130, 40)]] 16 16 1 None = 144%Z.
 Proof. exact ex_crop_contains_w. Qed.
 
-(* KorniaAugmenter (IterDataPipe) builds RandomAffine WITHOUT align_corners=True (only
-   apply_geometric_augmentation was repaired): its content map is warp_content false, so
-   c04_aug_square_error / c04_aug_square_registered are the strongest true statements for it
-   and c04_aug_nonsquare_refuted is its refutation (finding F04p, same witness matrix). *)
+(* KorniaAugmenter (IterDataPipe): pinned tree = RandomAffine without align_corners=True (finding F04p,
+   content map warp_content false, refuted by c04_aug_nonsquare_refuted); CURRENT tree (fix c812d23) =
+   align_corners=True like apply_geometric_augmentation: c04_warp_mech_aligned applies to both. *)
+
+(* ======================================================================== *)
+(* round 4: dataset pipeline FOLLOWED BY geometric augmentation, error against the ORIGINAL labels *)
+
+(* BottomUp / SingleInstance / Centroid (size matcher -> resizer -> stride pad -> augmentation) and
+   CenteredInstance (size matcher -> resizer -> over-crop -> augmentation -> re-crop -> pad): in the
+   final sample, (position of the content of the original point) - (returned keypoint) is the image
+   of the pipeline's error under the LINEAR part of the sampled matrix.  For any pipe / any steps. *)
+Theorem c04_full_aug_error : forall p m x y, (1 < osize (py p))%Z -> (1 < osize (px p))%Z ->
+  fst (full_aug_content true p m x y) - fst (full_aug_kp p m x y)
+    == fst (lin_apply m (err (px p) x) (err (py p) y)) /\
+  snd (full_aug_content true p m x y) - snd (full_aug_kp p m x y)
+    == snd (lin_apply m (err (px p) x) (err (py p) y)).
+Proof. exact full_aug_error. Qed.
+Print Assumptions c04_full_aug_error.
+
+Theorem c04_centered_aug_error : forall prex prey cx cy ch cw st m x y, (1 < ch)%Z -> (1 < cw)%Z ->
+  fst (centered_aug_content true prex prey cx cy ch cw st m x y)
+    - fst (centered_aug_kp prex prey cx cy ch cw st m x y)
+    == fst (lin_apply m (err prex x) (err prey y)) /\
+  snd (centered_aug_content true prex prey cx cy ch cw st m x y)
+    - snd (centered_aug_kp prex prey cx cy ch cw st m x y)
+    == snd (lin_apply m (err prex x) (err prey y)).
+Proof. exact centered_aug_error. Qed.
+Print Assumptions c04_centered_aug_error.
+
+(* the two halves of the centred pipeline compose to `recrop`, i.e. to pipe_centered *)
+Theorem c04_centered_stages_compose : forall pre c0 crop st x, (1 < crop)%Z ->
+  ap (cmap (recrop pre c0 crop st)) x
+    == ap (cmap (recrop_stage pre c0 crop st)) (ap (cmap (over_stage pre c0 crop)) x) /\
+  ap (kmap (recrop pre c0 crop st)) x
+    == ap (kmap (recrop_stage pre c0 crop st)) (ap (kmap (over_stage pre c0 crop)) x).
+Proof. exact recrop_split. Qed.
+Print Assumptions c04_centered_stages_compose.
+
+(* amplification: at most (|a| + |b|) times the larger pipeline error *)
+Theorem c04_aug_amplification_bound : forall a b e1 e2 E, Qabs e1 <= E -> Qabs e2 <= E ->
+  Qabs (a * e1 + b * e2) <= (Qabs a + Qabs b) * E.
+Proof. exact lin_bound. Qed.
+Print Assumptions c04_aug_amplification_bound.
+
+(* exact sizes: the error after the augmentation is ((k-1)/2) (a + b, c + d) at every point *)
+Theorem c04_full_aug_exact_error : forall H W mh mw s st p a b tx c d ty x y,
+  (0 < H)%Z -> (0 < W)%Z -> (0 < dflt H mh)%Z -> (0 < dflt W mw)%Z ->
+  pipe_full H W mh mw s st = Some p -> pexact p = true -> (1 < osize (py p))%Z -> (1 < osize (px p))%Z ->
+  let m := ((a, b, tx), (c, d, ty)) in
+  fst (full_aug_content true p m x y) - fst (full_aug_kp p m x y) == (pfactor p - 1) / 2 * (a + b) /\
+  snd (full_aug_content true p m x y) - snd (full_aug_kp p m x y) == (pfactor p - 1) / 2 * (c + d).
+Proof. exact pipe_full_aug_exact. Qed.
+Print Assumptions c04_full_aug_exact_error.
+
+(* THE REGISTRATION STATEMENT with geometric augmentation, partial: outside F11, F11b and F11c
+   (selector_F11c: the closed-form pipeline error multiplied by the matrix's linear part reaches one
+   pixel — sizes, factor, position and matrix entries only) the content of every original point is
+   under one output pixel from the returned keypoint on both axes.  Missing for the full statement:
+   exactly the three selectors (c04_selector_F11c_exact_full). *)
+Theorem c04_registration_partial_full_aug : forall H W mh mw s st p m x y,
+  (0 < H)%Z -> (0 < W)%Z -> (0 < dflt H mh)%Z -> (0 < dflt W mw)%Z -> 0 < s ->
+  pipe_full H W mh mw s st = Some p -> (1 < osize (py p))%Z -> (1 < osize (px p))%Z ->
+  selector_F11 p = false -> selector_F11b p x y = false -> selector_F11c p m x y = false ->
+  Qabs (fst (full_aug_content true p m x y) - fst (full_aug_kp p m x y)) < 1 /\
+  Qabs (snd (full_aug_content true p m x y) - snd (full_aug_kp p m x y)) < 1.
+Proof. exact pipe_full_aug_partial. Qed.
+Print Assumptions c04_registration_partial_full_aug.
+
+Theorem c04_registration_partial_centered_aug : forall H W mh mw s st ch cw cx cy q p m x y,
+  (0 < H)%Z -> (0 < W)%Z -> (0 < dflt H mh)%Z -> (0 < dflt W mw)%Z -> 0 < s -> (1 < ch)%Z -> (1 < cw)%Z ->
+  pipe_pre H W mh mw s = Some q -> pipe_centered H W mh mw s st ch cw cx cy = Some p ->
+  selector_F11 p = false -> selector_F11b p x y = false -> selector_F11c p m x y = false ->
+  Qabs (fst (centered_aug_content true (px q) (py q) cx cy ch cw st m x y)
+        - fst (centered_aug_kp (px q) (py q) cx cy ch cw st m x y)) < 1 /\
+  Qabs (snd (centered_aug_content true (px q) (py q) cx cy ch cw st m x y)
+        - snd (centered_aug_kp (px q) (py q) cx cy ch cw st m x y)) < 1.
+Proof. exact pipe_centered_aug_partial. Qed.
+Print Assumptions c04_registration_partial_centered_aug.
+
+Theorem c04_selector_F11c_exact_full : forall H W mh mw s st p m x y,
+  (0 < H)%Z -> (0 < W)%Z -> (0 < dflt H mh)%Z -> (0 < dflt W mw)%Z ->
+  pipe_full H W mh mw s st = Some p -> (1 < osize (py p))%Z -> (1 < osize (px p))%Z ->
+  (selector_F11c p m x y = true <->
+   selector_F11 p = false /\ selector_F11b p x y = false /\
+   (1 <= Qabs (fst (full_aug_content true p m x y) - fst (full_aug_kp p m x y)) \/
+    1 <= Qabs (snd (full_aug_content true p m x y) - snd (full_aug_kp p m x y)))).
+Proof. exact selector_F11c_exact_full. Qed.
+Print Assumptions c04_selector_F11c_exact_full.
+
+(* F11c, refutation of "under one pixel outside F11 / F11b" once an augmentation follows: 40 x 40,
+   scale 5/2 (exact sizes, pipeline error 3/4 px), rotation by atan(4/3) about the output centre *)
+Theorem c04_full_aug_refuted :
+  exists p, pipe_full 40 40 None None (5 # 2) 1 = Some p /\ pexact p = true /\
+    selector_F11 p = false /\ selector_F11b p 20 20 = false /\ selector_F11c p rot_100 20 20 = true /\
+    err (px p) 20 == 3 # 4 /\ err (py p) 20 == 3 # 4 /\
+    fst (full_aug_kp p rot_100 20 20) == 251 # 5 /\ snd (full_aug_kp p rot_100 20 20) == 247 # 5 /\
+    fst (full_aug_content true p rot_100 20 20) - fst (full_aug_kp p rot_100 20 20) == 21 # 20 /\
+    1 <= Qabs (fst (full_aug_content true p rot_100 20 20) - fst (full_aug_kp p rot_100 20 20)).
+Proof. exact full_aug_refuted_w. Qed.
+Print Assumptions c04_full_aug_refuted.
 
 (* Several videos in one label set (round 3).  A sample of CenteredInstanceDataset is cut from
    the image of ITS OWN labelled frame: `cache_lf` (the last decoded frame, re-used for the other
